@@ -32,6 +32,13 @@ CHECKS = {
    text="Generated snoopy.ini files (full inih grammar: sections, both separators, comments, inline comments, quotes, BOM, continuation lines, duplicates, CRLF, over-long lines; per-option valid spellings, near misses, garbage; numbers 0..10^15 with each suffix) are parsed by the production library and the values reported by its exported option-value API are compared with ini_model.py; length options are additionally checked for monotonicity over dense ladders; the output of the real `snoopyctl conf` is fed back as a config file and must reproduce every setting.",
    note="ini_model mirrors the documented inih build flags of this repository; open points (unparsable boolean/name: default or previous; length 0; trailing garbage; lone quote; doubled LOG_ prefix) accept several values. Effects of the parsed values on records are covered by C04 (priority, ident, sink)."),
 
+ "C09": dict(level="exploration", design="3/C09 + 2.5", technique="controlled scheduler (systematic schedule exploration at synchronisation points) + ThreadSanitizer stress + record oracle",
+   text="Arm (a): vsched interposes pthread_mutex_lock/unlock/pthread_once for calls coming from libsnoopy.so, runs the worker threads one at a time and executes every schedule of 2..4 threads x 1..3 failing wrapped calls with at most 2 (quick) / 3 (thorough) preemptions, each in a fresh process; per schedule it checks deadlock, lock leak, lock-held-at-real-exec, exactly one record per call with the caller's own token, pthread id and kernel tid, snoopy_threads within range and ==1 for the closing lone call. Arm (b): the -fsanitize=thread build under 8..64 real threads with each data source in turn first in the format, zero reports required; arm (c): single-threaded non-thread-safe build.",
+   note="Exhaustive only at synchronisation-point granularity within the preemption bound (adequate when the race-detector arm is clean); TSan is a happens-before detector on instrumented code only."),
+ "C10": dict(level="fault_enumeration", design="3/C10 + 2.5", technique="controlled fork points: victims parked at every lock acquisition / unlock of a wrapped call, fork from another thread, child liveness from /proc state",
+   text="Using the same interposed lock functions, 1..3 victim threads are parked right after each lock acquisition (inside the critical section) and right after each unlock of one wrapped call (all points discovered dynamically); another thread forks and the child makes a wrapped exec call (directly, after forking again, or from a new thread) under file/devlog/socket/stdout outputs. The child must reach the real exec and exit (deadlock = parked in futex/wait over three /proc samples), its record must be there once, and the released parent threads must finish. If fork() itself waits for the library's lock, the victims are released and the fork proceeds (reported, not judged).",
+   note="Fork instants are taken at Snoopy's synchronisation operations, not at arbitrary instructions; timing alone never decides."),
+
  "C11": dict(level="exploration", design="3/C11", technique="runtime monitoring of configuration histories, differential against a fresh process, ASan + allocator monitor",
    text="Histories of 2..30 wrapped calls in one long-lived process with snoopy.ini rewritten between calls from a pool covering every option (valid, invalid, duplicated), emptied, deleted, made unreadable, replaced by a directory or corrupted; each call's sink gains must equal those of the same call made first in a fresh process under the same file state (pid normalised). Thread-safe and non-thread-safe builds, plain and ASan (double frees); an interposed allocator checks that a second pass over the history leaves no additional Snoopy allocation live.",
    note="Destinations and records are observed at driver-owned sinks; the history runs as uid 12345 so that chmod 000 really makes the file unreadable."),
